@@ -634,6 +634,7 @@ func (fr *Frame) execFor(s *State, x *ast.ForStmt, label string) *State {
 		sb = head
 	}
 	lc := fr.pushLoop(label, false)
+	lc.spec, lc.ord = spec, ord
 	end := fr.execBlock(sb, x.Body.List)
 	fr.popLoop()
 	cont := mergeAll(append([]*State{end}, lc.continues...))
@@ -778,6 +779,7 @@ func (fr *Frame) execRange(s *State, x *ast.RangeStmt, label string) *State {
 		}
 	}
 	lc := fr.pushLoop(label, false)
+	lc.spec, lc.ord = spec, ord
 	end := fr.execBlock(sb, x.Body.List)
 	fr.popLoop()
 	cont := mergeAll(append([]*State{end}, lc.continues...))
@@ -871,6 +873,7 @@ func (fr *Frame) execRangeMap(s *State, x *ast.RangeStmt, label string, coll *Va
 		}
 	}
 	lc := fr.pushLoop(label, false)
+	lc.spec, lc.ord = spec, ord
 	end := fr.execBlock(sb, x.Body.List)
 	fr.popLoop()
 	cont := mergeAll(append([]*State{end}, lc.continues...))
